@@ -47,6 +47,9 @@ Definition out_again (r2 : ores unit) (w w2 : fsw) : bytes :=
 
 (* -1: the call succeeds; -2: it raises ValueError; otherwise OSError with that errno *)
 Definition inj_of (z : Z) : ores unit := if z =? -1 then OOk tt else if z <? 0 then OExn ValueError else OErr z.
+(* per-call limit of write: 0 = the kernel's (MAX_RW_COUNT), otherwise the injected short-write limit *)
+Definition write_limit (a : bytes) : Z := let z := arg_Z a in if z <=? 0 then max_rw_count else z.
+
 Definition run (args : list bytes) : bytes :=
   let op := nth_arg args 0 in
   if is_op "ensure_tree" op then
@@ -66,11 +69,11 @@ Definition run (args : list bytes) : bytes :=
     out_ores out_unit r
   else if is_op "write_to_tempfile" op then
     let path := if arg_bool (nth_arg args 2) then Some (nth_arg args 3) else None in
-    let '(w, r) := write_to_tempfile fs_runtime (nth_arg args 1) path (nth_arg args 4) (nth_arg args 5) (build_world (skipn 6 args)) in
+    let '(w, r) := write_to_tempfile (fs_runtime_lim (write_limit (nth_arg args 6))) (nth_arg args 1) path (nth_arg args 4) (nth_arg args 5) (build_world (skipn 7 args)) in
     out_ores (fun p => p) r ++ lit " " ++ out_world w
   else if is_op "write_to_tempfile_defaults" op then
     let path := if arg_bool (nth_arg args 2) then Some (nth_arg args 3) else None in
-    let '(w, r) := write_to_tempfile fs_runtime (nth_arg args 1) path default_suffix default_prefix (build_world (skipn 4 args)) in
+    let '(w, r) := write_to_tempfile (fs_runtime_lim (write_limit (nth_arg args 4))) (nth_arg args 1) path default_suffix default_prefix (build_world (skipn 5 args)) in
     out_ores (fun p => p) r ++ lit " " ++ out_world w
   else if is_op "checksum_default" op then
     match compute_file_checksum rec_runtime (nth_arg args 1) default_read_chunksize default_algorithm (build_world (skipn 2 args)) with
